@@ -1029,7 +1029,7 @@ def select_cases(tier, seed):
     chosen = []
     for k in sorted(strata):
         group = strata[k]
-        n = 2 if "os" not in k[2] else 1
+        n = 3 if "os" not in k[2] else 2
         chosen.extend(rnd.sample(group, min(n, len(group))))
     return chosen, len(cases)
 
@@ -1358,7 +1358,7 @@ def _pool_task(args):
     return explore_cases(cases, repeats, deadline)
 
 
-def explore(tier, seed, time_budget=None, procs=None, progress=False):
+def explore(tier, seed, time_budget=None, procs=None, progress=False, known_sigs=()):
     """Run the whole enumeration.  Returns a dict: stats, findings (one shrunk representative
     per signature), cases, model tie.  Needs neither common.preflight nor a Report."""
     t0 = time.time()
@@ -1403,10 +1403,15 @@ def explore(tier, seed, time_budget=None, procs=None, progress=False):
     install()
     try:
         shrunk = {}
+        shrink_left = 120.0 if thorough else 12.0
+        n_shrunk = 0
         for sig in sorted(out["findings"]):
             case, v = out["findings"][sig]
-            if len(shrunk) < 12:
-                case, v = shrink(case, v, tmpbase, budget_s=(30.0 if thorough else 5.0))
+            if sig not in known_sigs and n_shrunk < 10 and shrink_left > 0.5:
+                ts = time.time()
+                case, v = shrink(case, v, tmpbase, budget_s=min(shrink_left, 20.0 if thorough else 3.0))
+                shrink_left -= time.time() - ts
+                n_shrunk += 1
             shrunk[sig] = (case, v)
         out["findings"] = shrunk
         out["model_tie"] = model_crosscheck(tier, tmpbase)
@@ -1444,8 +1449,9 @@ ASSUMPTIONS = [
 
 def run(report):
     proof = common.preflight(report)
-    out = explore(report.tier, report.seed)
     local = dict((k["signature"], k) for k in load_local_known())
+    known_sigs = set(local) | set(k.get("signature") for k in report.known)
+    out = explore(report.tier, report.seed, known_sigs=known_sigs)
     reported = 0
     for sig in sorted(out["findings"]):
         case, v = out["findings"][sig]
